@@ -38,6 +38,7 @@ def cases(draw):
     return {'tree': tree, 'roots': roots, 'link': link,
             'opt': draw(st.sampled_from(['none', 'none', 'none', '-k', '--usecompiled'])),
             'ignore_dir': draw(st.sampled_from([None, None] + sorted({os.path.basename(p) for p in subdirs})[:4])),
+            'second': draw(st.sampled_from([None, None, 1, 2, 3])),
             'create_seed': draw(st.integers(0, 10 ** 6)), 'scan_seed': draw(st.integers(0, 10 ** 6))}
 
 
@@ -101,7 +102,7 @@ def _stronger(a, b):
 
 class Cleanup(Part):
     name = 'cleanup'
-    examples = {'quick': 1600, 'thorough': 30000}
+    examples = {'quick': 3200, 'thorough': 40000}
 
     def strategy(self, tier):
         return cases()
@@ -123,19 +124,6 @@ class Cleanup(Part):
                 if not (at == to or at.startswith(to + os.sep)) and not os.path.exists(lp):
                     os.symlink(to, lp)
                     has_link = True
-            before = snapshot(base)
-            cls = classify(case, base, before)
-            followed = has_link and link['name'] != '__pycache__' and link['name'] not in DEFAULT_IGNORE \
-                and link['name'] != case['ignore_dir']
-            if has_link and not followed:
-                labels.append('symlink-with-protected-name')
-            if followed:
-                # through a link the same directory is reachable under a second path: anything that is an orphan
-                # in the link target may be reached that way
-                for p, k in list(cls.items()):
-                    if k == 'never' and before[p][0] == 'file' and p[-4:] in ('.pyc', '.pyo') and \
-                            (p.startswith(to + os.sep)) and not os.path.exists(p[:-1]):
-                        cls[p] = 'may'
             args = ['--list-tests']
             for r in case['roots']:
                 args += ['--path', os.path.join(base, r) if r else base]
@@ -143,30 +131,75 @@ class Cleanup(Part):
                 args.append(case['opt'])
             if case['ignore_dir']:
                 args += ['--ignore_dir', case['ignore_dir']]
-            with fstree.ScandirOrder(case['scan_seed']):
-                run = drive.run_raw(args, trace_path=os.path.join(tmp, 'trace'), purge_under=base)
-            viol += common.run_escaped(run, 'C15')
-            after = snapshot(base)
-            removed = sorted(set(before) - set(after))
-            created = sorted(set(after) - set(before))
-            changed = sorted(p for p in before if p in after and before[p] != after[p])
             rel = lambda ps: [p[len(base) + 1:] for p in ps]  # noqa: E731
-            if created:
-                viol.append(('C15/created', 'created %s' % rel(created)))
-            if changed:
-                viol.append(('C15/modified', 'modified %s' % rel(changed)))
-            if case['opt'] != 'none':
-                if removed:
-                    viol.append(('C15/deleted-despite-%s' % case['opt'].strip('-'), 'removed %s' % rel(removed)))
-            else:
-                for p in removed:
-                    if cls.get(p) == 'never':
-                        why = 'a .py file is beside it' if os.path.exists(p[:-1]) else \
-                            ('not a .pyc/.pyo file' if p[-4:] not in ('.pyc', '.pyo') else 'protected directory')
-                        viol.append(('C15/deleted-non-orphan', 'removed %s (%s)' % (rel([p])[0], why)))
+
+            def one_pass(tag):
+                before = snapshot(base)
+                cls = classify(case, base, before)
+                followed = has_link and link['name'] != '__pycache__' and link['name'] not in DEFAULT_IGNORE \
+                    and link['name'] != case['ignore_dir']
+                if has_link and not followed:
+                    labels.append('symlink-with-protected-name')
+                if followed:
+                    # through a link the same directory is reachable under a second path: anything that is an orphan
+                    # in the link target may be reached that way
+                    for p, k in list(cls.items()):
+                        if k == 'never' and before[p][0] == 'file' and p[-4:] in ('.pyc', '.pyo') and \
+                                (p.startswith(to + os.sep)) and not os.path.exists(p[:-1]):
+                            cls[p] = 'may'
+                with fstree.ScandirOrder(case['scan_seed']):
+                    run = drive.run_raw(args, trace_path=os.path.join(tmp, 'trace'), purge_under=base)
+                viol.extend(common.run_escaped(run, 'C15'))
+                after = snapshot(base)
+                removed = sorted(set(before) - set(after))
+                created = sorted(set(after) - set(before))
+                changed = sorted(p for p in before if p in after and before[p] != after[p])
+                if created:
+                    viol.append(('C15/created' + tag, 'created %s' % rel(created)))
+                if changed:
+                    viol.append(('C15/modified' + tag, 'modified %s' % rel(changed)))
+                if case['opt'] != 'none':
+                    if removed:
+                        viol.append(('C15/deleted-despite-%s%s' % (case['opt'].strip('-'), tag), 'removed %s' % rel(removed)))
+                else:
+                    for p in removed:
+                        if cls.get(p) == 'never':
+                            why = 'a .py file is beside it' if os.path.exists(p[:-1]) else \
+                                ('not a .pyc/.pyo file' if p[-4:] not in ('.pyc', '.pyo') else 'protected directory')
+                            viol.append(('C15/deleted-non-orphan' + tag, 'removed %s (%s)' % (rel([p])[0], why)))
+                    for p, k in cls.items():
+                        if k == 'must' and p in after:
+                            namesake = any(os.path.basename(q) == os.path.basename(p)[:-1] for q in before)
+                            viol.append(('C15/orphan-kept' + tag, 'orphan %s was not removed%s' % (
+                                rel([p])[0], ' (a source file of that name exists in another directory)' if namesake else '')))
+                            break
                 for p, k in cls.items():
-                    if k == 'must' and p in after:
-                        viol.append(('C15/orphan-kept', 'orphan %s was not removed' % rel([p])[0]))
+                    if k == 'must' and any(os.path.basename(q) == os.path.basename(p)[:-1] for q in before):
+                        labels.append('orphan-with-namesake-elsewhere')
+                        break
+                return before, after, cls, removed
+
+            before, after, cls, removed = one_pass('')
+            if case.get('second') is not None and not viol:
+                # the same process runs the runner again after the tree has changed (a long-lived process such as a test
+                # of the runner itself, an IDE integration): orphans that appeared in between have to go as well
+                def pick(path, mod):
+                    h = hashlib.blake2b(('%d/%s' % (case['second'], path[len(base):])).encode(), digest_size=4).digest()
+                    return int.from_bytes(h, 'big') % mod == 0
+                n_new = 0
+                for p in removed:
+                    if before[p][0] == 'file' and pick(p, 2):
+                        with open(p, 'w') as f:
+                            f.write('stale again\n')
+                        n_new += 1
+                for p, info in sorted(after.items()):
+                    if info[0] == 'file' and p.endswith('.py') and (p + 'c' in after or p + 'o' in after) and pick(p, 3):
+                        os.unlink(p)
+                        n_new += 1
+                if n_new:
+                    labels.append('second-run-after-%s' % ('new-orphans' if case['opt'] == 'none' else 'changes'))
+                    before, after, cls2, removed = one_pass('/second-run')
+                    cls = dict(cls, **{p: k for p, k in cls2.items() if k == 'must'})
             kinds = set(cls.values())
             lookalike = any(n.endswith(('.pyc.bak', '.PYC', '.pycx')) or (n.endswith('pyc') and not n.endswith('.pyc'))
                             for n in (os.path.basename(p) for p in before))
@@ -258,7 +291,7 @@ class C15(Prop):
                   'directories and orphans reachable through a symlink only; content is compared by sha256 and mtime_ns.')
     rule = ('Hypothesis trees (depth <=3; per directory 0..4 plain files + 0..4 bytecode shapes out of 12), roots '
             'one/dup/nested/sub-only, optional symlinked directory (named zqlink, __pycache__, .git, CVS or zq-link), options none/-k/--usecompiled, optional extra '
-            '--ignore_dir. Non-trivial = the tree has >=1 true orphan, >=1 protected .pyc/.pyo and >=1 look-alike.')
+            '--ignore_dir, bytecode named like a source file of another directory, optional second run in the same process after new orphans appeared. Non-trivial = the tree has >=1 true orphan, >=1 protected .pyc/.pyo and >=1 look-alike.')
     assumptions = ('PYTHONDONTWRITEBYTECODE=1 in the workers (the interpreter itself creates no __pycache__)',)
     parts = (Cleanup(), Procs())
 
